@@ -102,9 +102,11 @@ type connKey struct {
 	sk    stackKey
 	proto string
 	kind  string
+	fill  bool // HTTP/2: the connection's first request carries 40 uncommon header names (per-connection caches of the server are full afterwards)
 }
 
 type conn struct {
+	fill     bool
 	cl       *stack.Client
 	hc       *h2raw.Conn
 	next     uint32
@@ -160,6 +162,11 @@ func (c *conn) do(st *stack.Stack, sc Scenario, tag string, baseline bool) Obs {
 			scheme = r.Scheme
 		}
 		fields := []h2raw.HF{{":method", method}, {":scheme", scheme}, {":authority", host}, {":path", path}, {"x-vf-tag", tag}}
+		if baseline && c.fill {
+			for i := 0; i < 40; i++ {
+				fields = append(fields, h2raw.HF{fmt.Sprintf("x-uncommon-filler-header-%02d", i), "f"})
+			}
+		}
 		if !baseline {
 			for _, u := range r.UA {
 				fields = append(fields, h2raw.HF{"user-agent", u})
@@ -243,7 +250,7 @@ func main() {
 	}
 	groups := map[connKey][]Scenario{}
 	for _, s := range scs {
-		k := connKey{stackKey{s.Req.Probe, s.Req.PreserveHost, s.Req.Custom != "absent", s.Req.Prefix}, s.Req.Proto, s.Req.Kind}
+		k := connKey{stackKey{s.Req.Probe, s.Req.PreserveHost, s.Req.Custom != "absent", s.Req.Prefix}, s.Req.Proto, s.Req.Kind, s.Req.Proto == "h2" && s.ID%2 == 1}
 		groups[k] = append(groups[k], s)
 	}
 	stacks := map[stackKey]*stack.Stack{}
@@ -289,6 +296,7 @@ func main() {
 						continue
 					}
 					c = nc
+					c.fill = k.fill
 					bo := c.do(st, sc, fmt.Sprintf("g%d-b%d", gi, n), true)
 					if bo.Err != "" || bo.Forwarded != 1 {
 						mu.Lock()
